@@ -17,6 +17,8 @@ remembers the first (api, text, nota, ws) that produced outs[i].
 
 from __future__ import annotations
 
+import re
+
 import json
 import random
 from typing import Any
@@ -83,9 +85,78 @@ def _is_int(x: Any) -> bool:
     return type(x) is int
 
 
-def res1(fn: Any, arg: Any, base: int = 0) -> dict[str, Any]:
+class _TooLong(Exception):
+    pass
+
+
+_GUARD_HITS = [0]
+
+
+def _guarded(fn: Any, arg: Any) -> Any:
+    """fn(arg) with a 3 s alarm (main thread of a worker process only): a parser that misreads a literal may start
+    to enumerate billions of numbers; that call then counts as a rejected text."""
+    import signal
+    import threading
+
+    if threading.current_thread() is not threading.main_thread():
+        return fn(arg)
+
+    def on_alarm(_s: int, _f: Any) -> None:
+        raise _TooLong()
+
+    old = signal.signal(signal.SIGALRM, on_alarm)
+    # 3 s for the first few calls that need the guard at all (on a conforming tree no call ever does); once calls
+    # keep running into it the tree is broken anyway and the remaining ones get 50 ms each
+    signal.setitimer(signal.ITIMER_REAL, 3.0 if _GUARD_HITS[0] < 5 else 0.05)
     try:
-        v = fn(arg)
+        return fn(arg)
+    except _TooLong:
+        _GUARD_HITS[0] += 1
+        raise
+    finally:
+        signal.setitimer(signal.ITIMER_REAL, 0)
+        signal.signal(signal.SIGALRM, old)
+
+
+_TOKEN = re.compile(r"(?<![0-9A-Za-z_])[0-9][0-9A-Za-z_]*")
+_LITERAL_OK: dict[str, bool] = {}
+SKIPPED_MISREAD = [0]
+
+
+def _literals_read_right(arg: Any) -> bool:
+    """Does gallia's auto_int read every integer literal of the text as the number it spells (Python literal
+    semantics, the notation the harness wrote it in)?  The literal family judges exactly that, spelling by
+    spelling; a range expression over a misread literal can denote billions of numbers, so it is not expanded
+    (counted in SKIPPED_MISREAD) -- the misreading itself is already reported."""
+    texts = [arg] if isinstance(arg, str) else [a for a in arg if isinstance(a, str)]
+    for t in texts:
+        for tok in _TOKEN.findall(t):
+            ok = _LITERAL_OK.get(tok)
+            if ok is None:
+                try:
+                    want = int(tok, 0)
+                except ValueError:
+                    try:
+                        want = int(tok, 10)
+                    except ValueError:
+                        want = None
+                try:
+                    got = auto_int(tok)
+                except Exception:  # noqa: BLE001
+                    got = None
+                ok = want is None or got is None or got == want
+                _LITERAL_OK[tok] = ok
+            if not ok:
+                return False
+    return True
+
+
+def res1(fn: Any, arg: Any, base: int = 0) -> dict[str, Any]:
+    if not _literals_read_right(arg):
+        SKIPPED_MISREAD[0] += 1
+        return {"t": "bad"}
+    try:
+        v = _guarded(fn, arg)
     except Exception:  # noqa: BLE001  -- the parser rejected the text
         return {"t": "err"}
     if not isinstance(v, list) or not all(_is_int(x) for x in v):
@@ -97,8 +168,11 @@ def res1(fn: Any, arg: Any, base: int = 0) -> dict[str, Any]:
 
 
 def res2(fn: Any, arg: Any, base: int = 0) -> dict[str, Any]:
+    if not _literals_read_right(arg):
+        SKIPPED_MISREAD[0] += 1
+        return {"t": "bad"}
     try:
-        d = fn(arg)
+        d = _guarded(fn, arg)
     except Exception:  # noqa: BLE001
         return {"t": "err"}
     if not isinstance(d, dict):
@@ -215,10 +289,25 @@ def case2(e2: list[list[Any]], base: int = 0, parsers: dict[str, Any] | None = N
     return {"kind": "r2", "ast": e2, "base": str(base), "outs": outs, "wit": wit, "calls": n}
 
 
+def limit_worker_memory() -> None:
+    """Pool initializer: a parser that misreads a literal can denote a range of billions of numbers; the worker
+    then gets MemoryError (recorded as a rejected text and judged) instead of taking the machine down."""
+    import resource
+
+    lim = 3 << 30
+    _soft, hard = resource.getrlimit(resource.RLIMIT_AS)
+    resource.setrlimit(resource.RLIMIT_AS, (lim if hard == resource.RLIM_INFINITY else min(lim, hard), hard))
+
+
 def run_chunk(job: tuple[int, list[Any]]) -> list[dict[str, Any]]:
     """multiprocessing entry: (dim, [ast, ...]) -> cases"""
     dim, asts = job
     return [case1(a) if dim == 1 else case2(a) for a in asts]
+
+
+def run_based_chunk(jobs: list[tuple[int, Any, int]]) -> list[dict[str, Any]]:
+    """multiprocessing entry: [(dim, ast, base), ...] -> cases"""
+    return [case1(a, b) if dim == 1 else case2(a, b) for dim, a, b in jobs]
 
 
 # ----------------------------------------------------------------------------
